@@ -168,3 +168,19 @@ PROPS["C08"] = dict(
 DESCR += [(r"c08_._host", "set_host on a factory URL (symbolic host bytes): exactly one Host field equal to host[:port]"),
           (r"c08_._target", "write_request request line for a factory URL with symbolic path/query/fragment/userinfo bytes: origin-form vs absolute-form, no fragment, no userinfo"),
           (r"c08_._dial", "BaseStream::connect: the peer handed to the dial hook is the proxy if one applies, else the URL's host and effective port")]
+
+PROPS["C03"] = dict(
+    filters={"quick": ["c03_q", "c03_qtwin"], "thorough": ["c03_"]},
+    timeout_s={"quick": 600, "thorough": 2400},
+    mem_gb=20,
+    kernel=["body_reader::parse_content_length", "is_content_length", "is_chunked", "BodyReader::new", "parse_response (bodiless statuses / HEAD)"],
+    bounds="parse_content_length on ALL field values of 1..4 bytes and on all 19/20/21-digit values; BodyReader::new on enumerated concrete field lists (0..2 Content-Length fields, 0..2 Transfer-Encoding fields, see harness names); "
+           "parse_response on header-less heads for HEAD and 1xx/204/304 with symbolic stray bytes after the head",
+    outside="field values of 5..18 bytes; 'chunked' not last in the list (the property does not say what must happen); heads with header fields through parse_response (parse_response_head with fields costs > 10 min per layout, see C04)",
+    stubs=["core::slice::memchr::memchr -> naive", "core::str::from_utf8 -> byte-wise validator", "io::Error::is_interrupted -> false"],
+    assumptions=[],
+)
+DESCR += [(r"c03_._content_length_len", "parse_content_length on every header value of n bytes against a digit-by-digit reference"),
+          (r"c03_._content_length_\d+digits", "parse_content_length on every n-digit value: exact or refused, never wrapped"),
+          (r"c03_._decide", "BodyReader::new on a header map built from the named Content-Length / Transfer-Encoding fields: framing variant and length"),
+          (r"c03_._bodiless", "parse_response for HEAD / 1xx / 204 / 304 with stray bytes after the head: body must read as empty")]
